@@ -99,7 +99,9 @@ def build_case(rng, A, kind):
         sites = [s for s in sites if s[0] in ("int", "size")]
     if not sites:
         return None
-    place = rng.choice(["local", "sibling_oid", "sibling_oid_byname", "sibling_noid", "sibling_oid_only"])
+    # "sibling_import_oid_only": the IMPORTS clause carries an object identifier, the loaded module's header has none
+    # (matched by name)
+    place = rng.choice(["local", "sibling_oid", "sibling_oid_byname", "sibling_noid", "sibling_oid_only", "sibling_import_oid_only"])
     sib_name = rng.choice(["Sibling", "Common-Defs", "Lib"])
     sib_oid = [["both", "iso", 1], ["num", rng.choice([2, 3, 840])], ["num", rng.choice([1, 5, 113549])]]
     if sib_name == A["name"]:
@@ -152,13 +154,13 @@ def build_case(rng, A, kind):
             mods_ref = [A]
             mods_lit = [lit_A]
         else:
-            sib = {"name": sib_name, "oid": None if place == "sibling_noid" else sib_oid, "tagdefault": None, "imports": [],
+            sib = {"name": sib_name, "oid": None if place in ("sibling_noid", "sibling_import_oid_only") else sib_oid, "tagdefault": None, "imports": [],
                    "empty_imports": False, "items": list(assigns) + [["type", "Shared", None, ["BOOLEAN"]]]}
             if dang in ("not_defined_there", "import_cycle"):
                 sib["items"] = [["type", "Shared", None, ["BOOLEAN"]]]
             imp_oid = None
             imp_name = sib_name
-            if place in ("sibling_oid",):
+            if place in ("sibling_oid", "sibling_import_oid_only"):
                 imp_oid = sib_oid
             elif place == "sibling_oid_only":
                 imp_oid = sib_oid
